@@ -28,8 +28,14 @@ ASSUMPTIONS = ["select.select stub: returns a subset of the requested fds; if it
 
 
 class Pinger:
+  after_ping = [None]         # hook: what runs while the pinging thread is descheduled inside the ping system call (C07)
   def __init__(self): self.flag = False
-  def ping(self): self.flag = True
+  def ping(self):
+    self.flag = True
+    h = Pinger.after_ping[0]
+    if h is not None:
+      Pinger.after_ping[0] = None
+      h()
   def pongAll(self): self.flag = False
   def pong(self): self.flag = False
   def fileno(self): return 998
@@ -180,6 +186,8 @@ def h_timer(ctx, recurring, cancel_after):
     def cb():
       fires.append(clock.now)
       if cancel_after == 'return_false' and len(fires) == 2: return False
+      if cancel_after == 'returns_falsy':            # only the literal False stops a self-stoppable timer: 0, 0.0, '', None, [] do not
+        return [0, 0.0, '', None, []][len(fires) % 5]
     tm = R.Timer(iv, cb, recurring=recurring, scheduler=s)
     if cancel_after == 'cancel_before':
       tm.cancel()
@@ -292,7 +300,7 @@ def obligations(tier):
   if thorough: pairs += [(a, b) for a in range(10) for b in range(10) if a > b]
   for a, b in pairs: progs.append((singles[a], singles[b]))
   timers = [dict(recurring=False, cancel_after='never'), dict(recurring=False, cancel_after='cancel_before'), dict(recurring=True, cancel_after='never'),
-            dict(recurring=True, cancel_after='return_false'), dict(recurring=True, cancel_after='cancel_at_3')]
+            dict(recurring=True, cancel_after='return_false'), dict(recurring=True, cancel_after='cancel_at_3'), dict(recurring=True, cancel_after='returns_falsy')]
   sub = [dict(depth=1, ops=['']), dict(depth=1, ops=['b']), dict(depth=2, ops=['', '']), dict(depth=2, ops=['b', 'a']), dict(depth=2, ops=['a', 'b']),
          dict(depth=3, ops=['', 'b', '']), dict(depth=3, ops=['ba', '', 'b']), dict(depth=2, ops=['b', 'b'], siblings=True)]
   if thorough: sub += [dict(depth=3, ops=['a', 'ba', 'a']), dict(depth=4, ops=['', 'b', 'a', '']), dict(depth=3, ops=['b', '', 'a'], siblings=True)]
